@@ -55,12 +55,25 @@ FORMULAS = ["F0", "F1", "F2", "F3"]
 TOKENS = ["S0", "S1", "S2", "BAD"]
 
 
+class _M:
+    def __init__(self, s):
+        self.s = s
+
+    def __bool__(self):
+        return True
+
+
 class _Chem:
+    """S1 is a non-canonical spelling (its canonical form 'S1c' is outside the alphabet); the others are canonical."""
+
     def MolFromSmiles(self, s, *a, **k):
-        return None if s == "BAD" or s not in TOKENS else W.FakeMol([])
+        return None if s == "BAD" or s not in TOKENS else _M(s)
 
     def MolToSmiles(self, m, **k):
-        return "?"
+        return "S1c" if m.s == "S1" else m.s
+
+    def CanonSmiles(self, s, *a, **k):
+        return "S1c" if s == "S1" else s
 
 
 _WORLD = {}
